@@ -401,6 +401,7 @@ func runC10(c *Ctx) error {
 	defer m.Close()
 	if c.Replay == "" {
 		kfReproC10(c.Rep)
+		c10TesterTie(c, m, c.N(1500, 60000))
 	}
 	c.Rep.Rule = "random tables (0-8 rows, nullable pointer column, small value domains so that filters overlap) x sets of 1-5 filters (every 40th case 90-270) over different column sets (id / b / a / a+b / s / b+s / j (a JSON column, filtered by struct or pointer) / j+b / empty), filters sqlgen rejects (unknown column, a value whose Valuer fails) mixed in, strings with blanks over two columns (tuples that print alike), an instant named in another time zone, a bool column named by 1 / 0, a string column named by []byte, calls with an OrderBy option next to calls without options, a second table with a composite primary key (filters on one key column, QueryRow), equal filters repeated, values carried as int64, int, *int64, a named integer type, string, *string, nil and typed nil pointers; every filter is queried on its own and then all of them concurrently under batch.WithBatching on the same fake database; rows per call compared (the property), and compared with the Lean model's alone / dispatched"
 	c.Rep.Assumptions = append(c.Rep.Assumptions,
